@@ -405,6 +405,76 @@ theorem locked_close_deadlocks (evs : List WEv) (s : WState) (hb : s.writerBlock
 example : wrun closeTakesWriteLock writeArmsDeadline {} [.callClose, .callClose, .sched]
     = { writerBlocked := false, socketClosed := true, ctxDone := false, closeReturned := true } := by decide
 
+/-! ### the handshake gate (DTLS / TLS, peer leaves the handshake unanswered) -/
+
+/-- the source fact: `handshake()` waits for its caller's context, not only for the transport -/
+theorem handshake_waits_for_ctx : handshakeWaitsForCtx = true := by decide
+
+theorem hrun_append (f : Bool) (s : HState) (a b : List HEv) : hrun f s (a ++ b) = hrun f (hrun f s a) b := by
+  simp [hrun, List.foldl_append]
+
+/-- once the operation has left `handshake(ctx)` it stays out -/
+theorem hstep_returned (f : Bool) (s : HState) (e : HEv) (h : s.opWaiting = false) : (hstep f s e).opWaiting = false := by
+  cases e <;> simp [hstep, h]
+
+theorem hrun_returned (f : Bool) (evs : List HEv) : ∀ s : HState, s.opWaiting = false → (hrun f s evs).opWaiting = false := by
+  induction evs with
+  | nil => intro s h; simpa [hrun] using h
+  | cons e r ih => intro s h; simpa [hrun] using ih _ (hstep_returned f s e h)
+
+theorem hstep_ctxDone (f : Bool) (s : HState) (e : HEv) (h : s.opCtxDone = true) : (hstep f s e).opCtxDone = true := by
+  cases e <;> simp [hstep, h]
+  split <;> simp [h]
+
+theorem hrun_ctxDone (f : Bool) (evs : List HEv) : ∀ s : HState, s.opCtxDone = true → (hrun f s evs).opCtxDone = true := by
+  induction evs with
+  | nil => intro s h; simpa [hrun] using h
+  | cons e r ih => intro s h; simpa [hrun] using ih _ (hstep_ctxDone f s e h)
+
+/-- With the select (the code as it is): whatever happened before and whoever holds the transport's handshake mutex, once
+    the operation's context has ended the next time it is scheduled it returns - for every history `pre`, every later
+    history `post`. -/
+theorem handshake_returns_on_ctx (s : HState) (pre post : List HEv) :
+    (hrun true s (pre ++ [.ctxEnds] ++ [.sched] ++ post)).opWaiting = false := by
+  rw [hrun_append, hrun_append, hrun_append]
+  apply hrun_returned
+  generalize hrun true s pre = t
+  cases hw : t.opWaiting <;> simp [hrun, hstep, hw]
+
+/-- Closing the connection ends the wait with or without the select: the first scheduling ends the reader's handshake,
+    the second one the operation's. -/
+theorem handshake_returns_on_close (f : Bool) (s : HState) (pre post : List HEv) :
+    (hrun f s (pre ++ [.close] ++ [.sched, .sched] ++ post)).opWaiting = false := by
+  rw [hrun_append, hrun_append, hrun_append]
+  apply hrun_returned
+  generalize hrun f s pre = t
+  cases hw : t.opWaiting <;> cases f <;> cases hr : t.readerIn <;> cases hc : t.opCtxDone <;> simp [hrun, hstep, hw, hr, hc]
+
+/-- What the select is for (F32, the code before the repair called the transport directly): while the reader's handshake
+    holds the mutex and nobody closes the connection, the operation never returns, although its context has ended. -/
+theorem direct_handshake_call_waits_for_reader (evs : List HEv) (hnc : HEv.close ∉ evs) :
+    ∀ s : HState, s.readerIn = true → s.opWaiting = true → s.closed = false →
+      (hrun false s evs).opWaiting = true := by
+  induction evs with
+  | nil => intro s _ hw _; simpa [hrun] using hw
+  | cons e r ih =>
+    intro s hr hw hc
+    have hne : e ≠ HEv.close := fun h => hnc (by simp [h])
+    have hr' : HEv.close ∉ r := fun h => hnc (by simp [h])
+    have := ih hr' (hstep false s e)
+    cases e with
+    | close => exact absurd rfl hne
+    | ctxEnds => simpa [hrun] using this (by simp [hstep, hr]) (by simp [hstep, hw]) (by simp [hstep, hc])
+    | sched =>
+      have hs : hstep false s .sched = s := by
+        cases s; simp_all [hstep]
+      simpa [hrun, hs] using ih hr' s hr hw hc
+
+-- the premises are met and the conclusions are not trivial: a silent peer, the context ends, nobody closes
+example : (hrun true {} [.sched, .ctxEnds, .sched]).opWaiting = false := by decide
+example : (hrun false {} [.sched, .ctxEnds, .sched, .sched, .sched]).opWaiting = true := by decide
+example : (hrun false {} [.ctxEnds, .close, .sched, .sched]).opWaiting = false := by decide
+
 end CoapVerif.Props.C09
 
 section Audit
@@ -435,4 +505,13 @@ open CoapVerif.Props.C09
 #print axioms run_allcbs
 #print axioms onclose_at_most_once
 #print axioms onclose_exactly_once_at_completion
+#print axioms handshake_waits_for_ctx
+#print axioms hrun_append
+#print axioms hstep_returned
+#print axioms hrun_returned
+#print axioms hstep_ctxDone
+#print axioms hrun_ctxDone
+#print axioms handshake_returns_on_ctx
+#print axioms handshake_returns_on_close
+#print axioms direct_handshake_call_waits_for_reader
 end Audit
